@@ -33,6 +33,17 @@ THROW_ALLOW = {
 
 
 def nonnull(st, ptr):
+    # a search algorithm of the standard library over [first, last) answers a position of that range, never null
+    if isinstance(ptr, tuple) and ptr and ptr[0] == 'call' and ptr[1].startswith('std::') and ptr[2] is None \
+            and contracts.fn_simple(ptr[1]) in ('find_if', 'find_if_not', 'find', 'lower_bound', 'upper_bound', 'next', 'prev') \
+            and ptr[3] and isinstance(ptr[3][0], tuple) and ptr[3][0][0] == 'addr':
+        return True
+    if isinstance(ptr, tuple) and ptr and ptr[0] not in ('k',):
+        for c, val in st.conds:
+            if not (isinstance(c, tuple) and c and c[0] == 'un' and c[1] == '!'):
+                continue
+            if c[2] == ptr and val is False:
+                return True
     for c, val in st.conds:
         if c in (('op', '==', ptr, NULL), ('op', '==', NULL, ptr)) and val is False:
             return True
@@ -121,12 +132,23 @@ def run(ck, F):
                     # loops inside accessors (linear searches): judged structurally elsewhere; report as note
                     ck.note(f'{inst}: {e} (not evaluated)')
                     continue
-                raise AnalysisBroken(f'{fid}: {e}')
+                if 'loop' in str(e):
+                    # a positional walk written as a loop: judge the first three steps of it (bounded, all paths)
+                    Sb = Sym(F, opaque=S.opaque, max_depth=S.max_depth)
+                    Sb.concrete_loops = True
+                    Sb.loop_cut = 3
+                    try:
+                        outs = Sb.run(fid, this=o, args=[('param', i) for i in range(len(f['params']))], state=st.fork())
+                    except Unsupported as e2:
+                        raise AnalysisBroken(f'{fid}: {e2}')
+                    ck.note(f'{inst}: contains a data-dependent loop, evaluated up to three iterations')
+                else:
+                    raise AnalysisBroken(f'{fid}: {e}')
             bad = []
             for s2, k, v in outs:
                 if k == 'throw':
                     thrown.setdefault(v, set()).add(inst)
-                for ptr, ln, nc, fn in s2.derefs:
+                for ptr, ln, nc, fn, _ne in s2.derefs:
                     if nonnull(s2, ptr):
                         continue
                     if isinstance(ptr, tuple) and ptr[0] == 'call' and ptr[1].startswith('std::') and contracts.fn_simple(ptr[1]) == 'operator->':
@@ -206,6 +228,7 @@ def run(ck, F):
     # ---------------------------------------------------------------- index discipline
     R3 = ck.rule('C14.index-discipline', 'every Sequence::get overrider refuses an index outside [0, size()) with a logic error, or '
                  'delegates to a checked accessor (at / another get)', floor=10)
+    bounded_gets = []
     for cls in conc:
         gets = [fo for fo in F.final_overrider_by_name(cls, 'get') if fo in F.fn and len(F.fn[fo]['params']) == 1]
         for fid in gets:
@@ -217,7 +240,20 @@ def run(ck, F):
             try:
                 outs = S.run(fid, this=o, args=[('param', 0)], state=st)
             except Unsupported as e:
-                raise AnalysisBroken(f'{fid}: {e}')
+                if 'loop' not in str(e):
+                    raise AnalysisBroken(f'{fid}: {e}')
+                # a positional walk written as a loop: explore it up to three steps (every path of that prefix is judged;
+                # the range test that matters precedes the walk)
+                Sb = Sym(F, opaque=S.opaque, max_depth=S.max_depth)
+                Sb.concrete_loops = True
+                Sb.loop_cut = 3
+                st = State()
+                o = st.new_obj(cls)
+                try:
+                    outs = Sb.run(fid, this=o, args=[('param', 0)], state=st)
+                except Unsupported as e2:
+                    raise AnalysisBroken(f'{fid}: {e2}')
+                bounded_gets.append(contracts.short(cls))
             inst = contracts.short(cls) + '::get'
             verdicts = []
             for s2, k, v in outs:
@@ -233,14 +269,33 @@ def run(ck, F):
                 has_get = any(named(t, ('get',)) and t[3] == (('param', 0),) for t in subs)
                 raw = any(named(t, ('operator[]', 'advance', 'next')) or (isinstance(t, tuple) and t and t[0] == 'index') for t in subs)
 
-                def upper_guard(c):
-                    for t in subterms(c):
-                        if isinstance(t, tuple) and t and t[0] == 'op' and t[1] == '>=' and t[2] == ('param', 0) and \
-                                any(named(x, ('size', 'distance')) for x in subterms(t[3])):
-                            return True
-                    return False
-                guard_false = any(val is False and upper_guard(c) for c, val in s2.conds)
-                single = any(c == ('op', '==', ('param', 0), ('k', 0, 'int')) and val is True for c, val in s2.conds)
+                def facts_of(conds):
+                    """(lhs, rhs, strict): lhs < rhs / lhs <= rhs known on the path, however the test was written."""
+                    out = []
+
+                    def visit(c, val):
+                        if not (isinstance(c, tuple) and c):
+                            return
+                        if c[0] == 'un' and c[1] == '!':
+                            return visit(c[2], not val)
+                        if c[0] == 'op' and ((c[1] == '||' and not val) or (c[1] == '&&' and val)):
+                            visit(c[2], val)
+                            visit(c[3], val)
+                            return
+                        if c[0] == 'op' and c[1] in ('<', '<=', '>', '>='):
+                            op, x, y = c[1], c[2], c[3]
+                            if not val:
+                                op = {'<=': '>', '<': '>=', '>=': '<', '>': '<='}[op]
+                            if op in ('>=', '>'):
+                                x, y, op = y, x, {'>=': '<=', '>': '<'}[op]
+                            out.append((x, y, op == '<'))
+                    for c, val in conds:
+                        visit(c, val)
+                    return out
+                guard_false = any(x == ('param', 0) and strict and any(named(t, ('size', 'distance')) for t in subterms(y))
+                                  for x, y, strict in facts_of(s2.conds))
+                single = any((c == ('op', '==', ('param', 0), ('k', 0, 'int')) and val is True)
+                             or (c == ('op', '!=', ('param', 0), ('k', 0, 'int')) and val is False) for c, val in s2.conds)
                 if raw:
                     verdicts.append(guard_false)
                 else:
